@@ -4,6 +4,7 @@ import (
 	"bufio"
 	"bytes"
 	"context"
+	"errors"
 	"fmt"
 	"io"
 	"log"
@@ -167,9 +168,18 @@ func (n *Node) finish() {
 	n.data.State.FinishedAt = time.Now()
 }
 
+var errCanceledBeforeStart = errors.New("the step was canceled before its command was started")
+
 func (n *Node) setupExec(ctx context.Context) (executor.Executor, error) {
 	n.mu.Lock()
 	defer n.mu.Unlock()
+
+	// A stop may arrive after the worker's last check and before the command
+	// exists: the node is then already marked canceled, and nothing would
+	// ever signal or cancel a command started now.
+	if n.data.State.Status == NodeStatusCancel {
+		return nil, errCanceledBeforeStart
+	}
 
 	ctx, fn := context.WithCancel(ctx)
 
